@@ -8,7 +8,7 @@ McHolds    == <<{1, 2}, {2, 3}>>
 McAW       == <<2, 3, 5, 7>>
 Blk(kd, al, h, w, bu, hm, n11, n12, n22, n23, t1, t2) ==
     [kind |-> kd, alt |-> al, h |-> h, w |-> w, bu |-> bu, hm |-> hm,
-     n |-> <<<<n11, n12, 0, 0>>, <<0, n22, n23, 0>>>>, t |-> <<t1, t2>>, ord |-> <<1, 2>>, lfp |-> FALSE, sym |-> 1]
+     n |-> <<<<n11, n12, 0, 0>>, <<0, n22, n23, 0>>>>, t |-> <<t1, t2>>, ord |-> <<1, 2>>, lfp |-> FALSE, sym |-> 1, wd |-> 1]
 FR  == {"fuel", "reflector"}
 FCR == {"fuel", "control", "reflector"}
 
@@ -49,7 +49,7 @@ OrdS  == {[Blk("fuel", FALSE, h, 1, 2, 1, a, 1, 1, 2, 600, 400) EXCEPT !.ord = o
 McCompArea3 == <<1, 2, 4>>
 McHolds3    == <<{1, 2}, {2, 3}, {3, 4}>>
 Blk3(kd, h, a, o) == [kind |-> kd, alt |-> FALSE, h |-> h, w |-> 1, bu |-> a, hm |-> 1,
-                      n |-> <<<<a, 1, 0, 0>>, <<0, 1, 2, 0>>, <<0, 0, 1, a>>>>, t |-> <<700, 500, 400>>, ord |-> o, lfp |-> FALSE, sym |-> 1]
+                      n |-> <<<<a, 1, 0, 0>>, <<0, 1, 2, 0>>, <<0, 0, 1, a>>>>, t |-> <<700, 500, 400>>, ord |-> o, lfp |-> FALSE, sym |-> 1, wd |-> 1]
 Perms3 == {<<1, 2, 3>>, <<1, 3, 2>>, <<2, 1, 3>>, <<2, 3, 1>>, <<3, 1, 2>>, <<3, 2, 1>>}
 PermS == {Blk3("fuel", 1 + a \div 2, a, o) : a \in {0, 2}, o \in Perms3}
 FamsPerm == {"perm"}
@@ -58,6 +58,20 @@ FamsPerm == {"perm"}
 SymS  == {[Blk("fuel", FALSE, h, 1, bu, hm, bu \div 3, 1, 1, 2, 400 + 50 * bu, 300) EXCEPT !.sym = sy] : sy \in {1, 2, 3}, h \in {1, 2}, bu \in {0, 3, 8}, hm \in {1, 2}}
 SymQ  == {[Blk("fuel", FALSE, h, 1, bu, 1 + bu \div 8, bu \div 3, 1, 1, 2, 400 + 50 * bu, 300) EXCEPT !.sym = sy] : sy \in {1, 2, 3}, h \in {1, 2}, bu \in {0, 3, 8}}
 SymX  == {[Blk("fuel", FALSE, 1 + bu \div 8, 1, bu, 1, bu \div 3, 1, 1, 2, 400 + 50 * bu, 300) EXCEPT !.sym = sy] : sy \in {1, 2, 3}, bu \in {0, 3, 8}}
+\* by-component averaging with a member of different component flags in every position of three (first / middle / last)
+\* (nuclide 2 sits in both components with different densities, so that per-component and block-level averaging differ)
+Sim3S == {Blk("fuel", al, 1 + a \div 2, 1, 2, 1, a, 1 + a \div 2, 0, 2, t1, 400) : al \in BOOLEAN, a \in {0, 2}, t1 \in {400, 700}}
+Sim3X == {Blk("fuel", al, 1 + a \div 2, 1, 2, 1, a, 1 + a \div 2, 0, 2, 400 + 150 * a, 400) : al \in BOOLEAN, a \in {0, 2}}
+\* members that hold different nuclide sets: component 1 of some members also holds nuclide 4 (density 2), in every order of three
+WithN4(b, x) == [b EXCEPT !.n[1][4] = x]
+NucsS == {WithN4(Blk("fuel", FALSE, h, 1, 2, 1, a, 1, 1, 2, 600, 400), x) : h \in {1, 2}, a \in {0, 2}, x \in {0, 2}}
+NucsX == {WithN4(Blk("fuel", FALSE, 1 + a \div 2, 1, 2, 1, a, 1, 1, 2, 600, 400), x) : a \in {0, 2}, x \in {0, 2}}
+\* flux values below 1 (1/4, 1/2, 3/4), 1, large (8) and 0
+WithFlux(b, f) == [b EXCEPT !.w = f[1], !.wd = f[2]]
+FluxVals == {<<0, 1>>, <<1, 4>>, <<1, 2>>, <<3, 4>>, <<1, 1>>, <<8, 1>>}
+FluxS == {WithFlux(Blk("fuel", FALSE, h, 1, a, 1 + a \div 2, a, 1, 1, 2, 500 + 100 * a, 400), f) : h \in {1, 2}, a \in {0, 1, 2}, f \in FluxVals}
+FluxQ == {WithFlux(Blk("fuel", FALSE, h, 1, a, 1 + a \div 2, a, 1, 1, 2, 500 + 100 * a, 400), f) : h \in {1, 2}, a \in {0, 2}, f \in FluxVals \ {<<1, 2>>}}
+FluxX == {WithFlux(Blk("fuel", FALSE, 1 + a \div 2, 1, a, 1 + a \div 2, a, 1, 1, 2, 500 + 100 * a, 400), f) : a \in {0, 2}, f \in {<<0, 1>>, <<1, 4>>, <<3, 4>>, <<1, 1>>, <<8, 1>>}}
 \* collections of three and four: everything varies a little
 TriX  == {Blk(kd, FALSE, 1 + p[1] \div 2, p[1], p[3], p[2], p[2], 1, 1, 1, 600 + 50 * p[1], 400) : kd \in FR, p \in {<<0, 0, 0>>, <<2, 2, 3>>, <<1, 1, 8>>}}
 TriS  == {Blk(kd, FALSE, h, p[1], p[3], p[2], p[2], 1, 1, 1, 600 + 50 * p[1], 400) : kd \in FR, h \in {1, 2}, p \in {<<0, 0, 0>>, <<2, 2, 3>>}}
@@ -72,27 +86,30 @@ OptsCyl  == {Opt("ComponentAverage1DCylinder", "fuel", FALSE), Opt("ComponentAve
 OptsLfp  == {Opt("Median", "fuel", FALSE), Opt("Average", "fuel", FALSE), Opt("ComponentAverage1DCylinder", "fuel", FALSE)}
 OptsOrd  == {Opt("Average", "fuel", TRUE), Opt("ComponentAverage1DCylinder", "fuel", FALSE), Opt("Median", "fuel", FALSE)}
 OptsSym  == {Opt("Average", "fuel", FALSE), Opt("Average", "fuel", TRUE), Opt("Median", "fuel", FALSE), Opt("ComponentAverage1DCylinder", "fuel", FALSE)}
+OptsSim3 == {Opt("Average", "fuel", TRUE), Opt("FluxWeightedAverage", "all", TRUE)}
+OptsNucs == {Opt("Average", "fuel", FALSE), Opt("Average", "fuel", TRUE), Opt("ComponentAverage1DCylinder", "fuel", FALSE), Opt("Median", "fuel", FALSE)}
+OptsFlux == {Opt("FluxWeightedAverage", "fuel", FALSE), Opt("FluxWeightedAverage", "fuel", TRUE)}
 OptsTri  == {Opt("Average", "fuel", FALSE), Opt("FluxWeightedAverage", "fuel", TRUE), Opt("Median", "fuel", FALSE), Opt("Median", "all", FALSE), Opt("Average", "all", TRUE)}
 
-Fams == {"dens", "temp", "burn", "kind", "tri", "cyl", "cyl3", "lfp", "ord", "sym"}
+Fams == {"dens", "temp", "burn", "kind", "tri", "cyl", "cyl3", "lfp", "ord", "sym", "sim3", "nucs", "flux"}
 OptsFor(f) == CASE f = "dens" -> OptsDens [] f = "temp" -> OptsTemp [] f = "burn" -> OptsBurn [] f = "kind" -> OptsKind [] f = "tri" -> OptsTri
-                [] f \in {"cyl", "cyl3"} -> OptsCyl [] f = "lfp" -> OptsLfp [] f \in {"ord", "perm"} -> OptsOrd [] f = "sym" -> OptsSym
+                [] f \in {"cyl", "cyl3"} -> OptsCyl [] f = "lfp" -> OptsLfp [] f \in {"ord", "perm"} -> OptsOrd [] f = "sym" -> OptsSym [] f = "sim3" -> OptsSim3 [] f = "nucs" -> OptsNucs [] f = "flux" -> OptsFlux
 \* laws, quick: small domains, pairs (triples for "tri")
-Extra(f) == CASE f = "cyl3" -> CylTri [] f = "lfp" -> LfpS [] f = "ord" -> OrdS [] f = "perm" -> PermS [] f = "sym" -> SymS
+Extra(f) == CASE f = "cyl3" -> CylTri [] f = "lfp" -> LfpS [] f = "ord" -> OrdS [] f = "perm" -> PermS [] f = "sym" -> SymS [] f = "sim3" -> Sim3S [] f = "nucs" -> NucsS [] f = "flux" -> FluxS
 DomMcQ(f) == CASE f = "dens" -> DensX [] f = "temp" -> TempS [] f = "burn" -> BurnX [] f = "kind" -> KindX [] f = "tri" -> TriX
-               [] f = "cyl" -> CylS [] f = "cyl3" -> CylTriX [] f = "sym" -> SymX [] OTHER -> Extra(f)
-MaxMcQ(f) == IF f \in {"tri", "cyl3"} THEN 3 ELSE 2
+               [] f = "cyl" -> CylS [] f = "cyl3" -> CylTriX [] f = "sym" -> SymX [] f = "sim3" -> Sim3X [] f = "nucs" -> NucsX [] f = "flux" -> FluxX [] OTHER -> Extra(f)
+MaxMcQ(f) == IF f \in {"tri", "cyl3", "sim3", "nucs"} THEN 3 ELSE 2
 \* laws, thorough: medium domains; triples of the small ones would be 10^5 states each, so "tri" carries the triples/quadruples
 DomMcT(f) == CASE f = "dens" -> DensM [] f = "temp" -> TempM [] f = "burn" -> BurnM [] f = "kind" -> KindM [] f = "tri" -> TriS
                [] f = "cyl" -> CylM [] OTHER -> Extra(f)
-MaxMcT(f) == IF f = "tri" THEN 4 ELSE IF f = "cyl3" THEN 4 ELSE 2
+MaxMcT(f) == IF f \in {"tri", "cyl3"} THEN 4 ELSE IF f \in {"sim3", "nucs"} THEN 3 ELSE 2
 \* cases for the real code, quick / thorough
 DomEmQ(f) == CASE f = "dens" -> DensM [] f = "temp" -> TempM [] f = "burn" -> BurnS [] f = "kind" -> KindS [] f = "tri" -> TriM
-               [] f = "cyl" -> CylQ [] f = "sym" -> SymQ [] OTHER -> Extra(f)
-MaxEmQ(f) == IF f \in {"tri", "cyl3"} THEN 3 ELSE 2
+               [] f = "cyl" -> CylQ [] f = "sym" -> SymQ [] f = "flux" -> FluxQ [] OTHER -> Extra(f)
+MaxEmQ(f) == IF f \in {"tri", "cyl3", "sim3", "nucs"} THEN 3 ELSE 2
 DomEmT(f) == CASE f = "dens" -> DensL [] f = "temp" -> TempL [] f = "burn" -> BurnL [] f = "kind" -> KindL [] f = "tri" -> TriS
                [] f = "cyl" -> CylL [] OTHER -> Extra(f)
-MaxEmT(f) == IF f \in {"tri", "cyl3"} THEN 4 ELSE 2
+MaxEmT(f) == IF f \in {"tri", "cyl3"} THEN 4 ELSE IF f \in {"sim3", "nucs"} THEN 3 ELSE 2
 
 View == <<fam, members>>
 \* one JSON line per explored CreateRepresentative edge = one case for the real code
